@@ -35,7 +35,7 @@ PROPS = {
         "level": "model_checking",
         "uses_vsched": True,
         "technique": "stateless model checking of real client+server sessions under a controlled scheduler: all message sequences (len<=3) x all handler completion orders (gates) x delay-bounded schedules",
-        "claim": "for every sequence of length <=3 over {notification, tool call, ping} client->server and {progress, log, create-message} server->client, with every user handler parked on a gate that an idle-priority controller opens in every order, and every schedule within the deviation budget, the handler of a notification (and of initialized) finishes before any later message's handler starts; a raw peer whose slow initialize call has its context ended (notifications/cancelled for it, or a disconnect) followed by a ping / call / notification: the later handler still does not start before the initialize handler finished; a liveness scenario shows calls do overlap",
+        "claim": "for every sequence of length <=3 over {notification, tool call, ping} client->server and {progress, log, create-message} server->client, with every user handler parked on a gate that an idle-priority controller opens in every order, and every schedule within the deviation budget, the handler of a notification (and of initialized) finishes before any later message's handler starts; a raw peer sending every batch of three over {notification, call, ping} (2025-03-26): members are dispatched in batch order; over the streamable HTTP server (stateful, stateless legacy, stateless 2026-07-28) a notification POST followed by a call POST: the accepted notification is handled, and before the call (KNOWN FINDING: stateless servers accept and never dispatch it); a raw peer whose slow initialize call has its context ended (notifications/cancelled for it, or a disconnect) followed by a ping / call / notification: the later handler still does not start before the initialize handler finished; a liveness scenario shows calls do overlap",
         "note": "in-memory transport only in this check (HTTP transports are exercised by C02/C10 harnesses); sequences longer than 3 and budgets beyond B are outside the bound",
         "parts": [
             {"pkg": "mcp", "mode": "instr", "test": "TestVerifC03", "two_phase": True, "time_s": {"thorough": 1800}},
@@ -47,7 +47,7 @@ PROPS = {
         "level": "model_checking",
         "uses_vsched": True,
         "technique": "stateless model checking under a controlled scheduler with virtual time: delay-bounded schedules x cancel target/stage x peer behaviours (answers, late, never, stops draining)",
-        "claim": "(i) real sessions: two in-flight tool calls, which one is cancelled and when (early, at first idle moment, after return) plus schedule deviations; only the matching handler may observe ctx.Done, the caller returns with zero virtual time after cancel, the session stays usable; (ii) mcp call() over a scripted transport whose peer answers, answers after the cancel, never answers, or parks the request / the cancel notice write until its context ends: prompt return, the other in-flight call and later calls unaffected, nothing left after the 5s notice timeout; (iii) a raw peer with two gated tool calls in flight on a server session, optionally a third request reusing either id (refused), then notifications/cancelled for either id: exactly that handler observes ctx.Done, both calls are answered, the session answers a final ping; (iv) a handler's nested server-to-client request abandoned while the tool call is in flight over streamable HTTP (with and without a standalone stream): the notifications/cancelled travels on the call's own exchange and names the abandoned request; (v) real client over in-process streamable HTTP (stateful legacy and stateless 2026-07-28 with PropagateRequestCancellation, SSE and JSON responses, with and without a second call in flight) and a scripted peer that sends JSON headers at once and the body late: the cancelled call returns at once with the context's error, exactly its server-side handler is cancelled, the other call and later calls succeed",
+        "claim": "(i) real sessions: two in-flight tool calls, which one is cancelled and when (early, at first idle moment, after return) plus schedule deviations; only the matching handler may observe ctx.Done, the caller returns with zero virtual time after cancel, the session stays usable; (ii) mcp call() over a scripted transport whose peer answers, answers after the cancel, never answers, or parks the request / the cancel notice write until its context ends: prompt return, the other in-flight call and later calls unaffected, nothing left after the 5s notice timeout; (iii) a raw peer with two gated tool calls in flight on a server session, optionally a third request reusing either id (refused), then notifications/cancelled for either id (ids 1/2 or two neighbouring ids beyond 2^53): exactly that handler observes ctx.Done, both calls are answered, the session answers a final ping; (iv) a handler's nested server-to-client request abandoned while the tool call is in flight over streamable HTTP (with and without a standalone stream): the notifications/cancelled travels on the call's own exchange and names the abandoned request; (v) real client over in-process streamable HTTP (stateful legacy and stateless 2026-07-28 with PropagateRequestCancellation, SSE and JSON responses, with and without a second call in flight) and a scripted peer that sends JSON headers at once and the body late: the cancelled call returns at once with the context's error, exactly its server-side handler is cancelled, the other call and later calls succeed; (vi) two calls in flight on a streamable session, the HTTP stream of one breaks (writes fail) and its handler then returns: the undeliverable late response has no effect on the other call or the session",
         "note": "two concurrent calls; budget-bounded schedules; virtual time (a return that needs a timer is a violation)",
         "parts": [
             {"pkg": "mcp", "mode": "instr", "test": "TestVerifC04", "two_phase": True, "scenario_exclude": "http/", "time_s": {"thorough": 1800}},
